@@ -10,7 +10,7 @@ use crate::run::*;
 
 pub const ID: &str = "C08";
 
-pub const RULE: &str = "cases = (grammar, input): C01/C02-class grammars with recover_with(via_parser(fallback) | skip_until(skip, until, fallback) | skip_then_retry_until(skip, until) | via_parser(nested_delimiters(..))) at arbitrary nodes and nesting (recovery inside recovery, inside choices / repetitions / lookahead), validate emitters alongside; inputs: derived sentences with 0..2 edits, unbalanced / mismatched delimiters, random strings; plus a bounded-exhaustive tier of templates (each strategy x each exit) x all strings over 3..5 symbols up to length L. Oracle = the reference semantics of the statement: p succeeds -> p's result, nothing added; p fails and the strategy succeeds -> the strategy's output and exactly one extra error, emitted after the strategy's own emissions, equal (span start, found, expected set / user message) to the furthest-failure summary at the moment p failed; both fail -> failure, position restored, that same error pending (so the last reported error of a rejected input is compared with the reference's pending error). Compared: has_output, output value incl. which nodes produced fallback markers, number and order of errors (recovered ones interleaved with validate emissions), content of every recovered error; both readings of V-take (DESIGN.md 3.1) are admissible. Oracle-free: an error-free result never contains a fallback marker; errors().len() >= number of fallback markers; NON-TRIVIAL = at least one recovery fired on the surviving path, or fired and was abandoned by an enclosing backtrack, or both p and its strategy failed; distinct = distinct (sub-check, grammar, input).";
+pub const RULE: &str = "cases = (grammar, input): C01/C02-class grammars with recover_with(via_parser(fallback) | skip_until(skip, until, fallback) | skip_then_retry_until(skip, until) | via_parser(nested_delimiters(..))) at arbitrary nodes and nesting (recovery inside recovery, inside choices / repetitions / lookahead), validate emitters alongside; inputs: derived sentences with 0..2 edits, unbalanced / mismatched delimiters, random strings; plus a bounded-exhaustive tier of templates (each strategy x each exit) x all strings over 3..5 symbols up to length L. Oracle = the reference semantics of the statement: p succeeds -> p's result, nothing added; p fails and the strategy succeeds -> the strategy's output and exactly one extra error, emitted after the strategy's own emissions, equal (span start, found, expected set / user message) to the furthest-failure summary at the moment p failed; both fail -> failure, position restored, that same error pending (so the last reported error of a rejected input is compared with the reference's pending error). Compared: has_output, output value incl. which nodes produced fallback markers, number and order of errors (recovered ones interleaved with validate emissions), content of every recovered error; both readings of V-take (DESIGN.md 3.1) are admissible. Oracle-free: an error-free result never contains a fallback marker; errors().len() >= number of fallback markers; One random case in sixteen also runs on every other input representation. NON-TRIVIAL = at least one recovery fired on the surviving path, or fired and was abandoned by an enclosing backtrack, or both p and its strategy failed; distinct = distinct (sub-check, grammar, input).";
 
 pub const ASSUMPTIONS: &[&str] = &[
     "reference semantics of the three strategies as in the statement: skip_until = least k such that after k skip steps `until` matches; skip_then_retry_until = repeat { give up if `until` matches here; one skip step or give up; retry p, accept only a retry that emitted nothing }; nested_delimiters = exactly one balanced region starting at `open`",
